@@ -15,7 +15,7 @@ enum { K_ENCKEY, K_ADAPTOR, K_PUBLISH, K_RELAY, K_NK };
 const char *const KN[] = {"ENCKEY", "ADAPTOR", "PUBLISH", "RELAY"};
 enum { F_MALLEATE = NF_WORLD1 };
 
-struct NonceCtl { int fail_at = -1; int kind = 0; int calls = 0; const unsigned char *aux = nullptr; };
+struct NonceCtl { int fail_at = -1; int kind = 0; int calls = 0; const unsigned char *aux = nullptr; bool want_alias = false; };
 int ctl_nonce(unsigned char *nonce32, const unsigned char *msg32, const unsigned char *key32, const unsigned char *pk33, const unsigned char *algo, size_t algolen, void *data) {
     NonceCtl *c = (NonceCtl *)data;
     int idx = c->calls++;
@@ -65,12 +65,21 @@ struct SwapSim {
         bool use_cb = false, expect_fail = false;
         if (nf) { ctl.kind = (int)(nf->arg(1) % 4); ctl.fail_at = (int)(nf->arg(2) % 2); use_cb = true; if (nf->arg(3) & 1) ctl.aux = aux; expect_fail = ctl.kind == 1 || ctl.kind == 2; if (ctl.kind) r.fault("nonce_cb." + std::to_string(ctl.kind)); }
         Buf out(162); uint8_t skc[32]; memcpy(skc, w.x, 32);
+        // the caller may keep the message (or its key copy) inside the work buffer that also receives the output
+        const Op *al = find("alias", s);
+        const unsigned char *msgp = w.msg; unsigned char *skp = skc;
+        if (al && !use_cb) {
+            int mode = (int)(al->arg(1) % 2);
+            if (mode == 0) { memcpy(out.p(), w.msg, 32); msgp = out.p(); r.fault("alias_msg_in_output"); }
+            else { memcpy(out.p() + 33, w.x, 32); skp = out.p() + 33; r.fault("alias_key_in_output"); }
+            ctl.want_alias = true;
+        }
         MonMark mk = mon_mark();
         int e = use_cb ? L01(secp256k1_ecdsa_adaptor_encrypt(ctx, out.p(), skc, &Y, w.msg, ctl_nonce, &ctl))
-                       : L01(secp256k1_ecdsa_adaptor_encrypt(ctx, out.p(), skc, &Y, w.msg, NULL, (s & 1) ? aux : NULL));
+                       : L01(secp256k1_ecdsa_adaptor_encrypt(ctx, out.p(), skp, &Y, msgp, NULL, (s & 1) ? aux : NULL));
         r.cmp();
         if (!mon_quiet_since(mk)) { r.violate("C14", "callback", "secp256k1_ecdsa_adaptor_encrypt", "callback on valid arguments"); return; }
-        if (memcmp(skc, w.x, 32) != 0) { r.violate("C14", "seckey_modified", "secp256k1_ecdsa_adaptor_encrypt", "the secret key argument was modified"); return; }
+        if (!ctl.want_alias && memcmp(skc, w.x, 32) != 0) { r.violate("C14", "seckey_modified", "secp256k1_ecdsa_adaptor_encrypt", "the secret key argument was modified"); return; }
         Bytes ob = out.bytes();
         bool allz = true; for (auto b : ob) if (b) allz = false;
         if ((e != 0) == expect_fail) { r.violate("C14", "encrypt_result", "secp256k1_ecdsa_adaptor_encrypt", std::string("encrypt returned ") + std::to_string(e) + (expect_fail ? " although the nonce callback failed" : " on valid arguments")); return; }
@@ -193,7 +202,7 @@ struct SwapSim {
         if (capped) r.violate("C14", "step_cap", "run", "step cap hit");
         // liveness: a swap untouched by any fault completes
         for (int i = 0; i < k && r.ok; i++) {
-            bool touched = net.fault_sids.count(i) || find("noncefault", i) || find("keyfault", i);
+            bool touched = net.fault_sids.count(i) || find("noncefault", i) || find("keyfault", i);   // aliasing is not a fault: the swap must still complete
             r.cmp();
             if (!touched && !sw[i].recovered) r.violate("C14", "liveness", "protocol", "swap " + std::to_string(i) + " had no fault injected but did not complete");
         }
@@ -214,6 +223,7 @@ static Plan swap_generate(uint64_t seed, int) {
         if (g.chance(1, 3)) { Op o; o.k = "class"; o.a = {i, (int64_t)g.below(4), (int64_t)g.below(4)}; p.ops.push_back(o); }
         if (g.chance(1, 4)) { Op o; o.k = "noncefault"; o.a = {i, (int64_t)g.below(4), (int64_t)g.below(2), (int64_t)g.below(2)}; p.ops.push_back(o); }
         if (g.chance(1, 8)) { Op o; o.k = "keyfault"; o.a = {i, (int64_t)g.below(2)}; p.ops.push_back(o); }
+        if (g.chance(1, 8)) { Op o; o.k = "alias"; o.a = {i, (int64_t)g.below(2)}; p.ops.push_back(o); }
     }
     int nd = (int)g.range(0, 2 * k);
     for (int i = 0; i < nd; i++) { Op o; o.k = "nd"; int kind = (int)g.below(K_NK); static const int fr[] = {1, 0, 1, 2}, to[] = {0, 1, 2, 0}; o.a = {kind, (int64_t)g.below(k), 0, fr[kind], to[kind], (int64_t)g.range(0, 30)}; p.ops.push_back(o); }
